@@ -90,6 +90,13 @@ def conveyor_subjects(tier):
     out = []
     if q:
         out.append(S("cconv", 3, live=1, drain=1, eager_get=1, age_cap=4, grid=0.5, acc=1, ilen=1, clen=2.5, notime=1))   # non-multiple length (KF13)
+    # speed != 1: time and distance units differ (T = 1, one item length of travel = 0.5)
+    out.append(S("cconv", 2, live=1, drain=1, eager_get=1, age_cap=2, grid=0.25, acc=1, ilen=1, clen=2, speed=2))
+    out.append(S("cconv", 2, live=1, drain=1, eager_get=1, age_cap=2, grid=0.25, acc=0, ilen=1, clen=2, speed=2))
+    # three slots on a half-slot grid: a follower can be caught by a stall in the middle of its phase 2
+    out.append(S("cconv", 3, live=1, drain=1, eager_get=1, age_cap=5, grid=0.5, acc=0))
+    # four slots, accumulating, on the slot grid: several touching followers, zero-length stalls, repeated stalls
+    out.append(S("cconv", 4, live=1, drain=1, eager_get=1, age_cap=5, grid=1, acc=1, notime=1, cap_states=30000 if q else 200000))
     for kind in ("cconv", "sconv"):
         for acc in (1, 0):
             kw = {"delay": 1} if kind == "sconv" else {}
@@ -173,7 +180,10 @@ def jobs_for(prop, tier):
         for sp in conveyor_subjects(tier):
             if sp.get("order_only") and prop == "C13":
                 continue   # the kinematic reference is only defined for an eager consumer (DESIGN §5 C13, §12.4)
-            jobs.append({"engine": "S", "prop": prop, "label": sp.label() + "#" + _h(sp), "spec": sp.to_json(), "caps": ccaps})
+            cc = dict(ccaps)
+            if sp.get("cap_states"):
+                cc["max_states"] = sp.get("cap_states")
+            jobs.append({"engine": "S", "prop": prop, "label": sp.label() + "#" + _h(sp), "spec": sp.to_json(), "caps": cc})
         if prop == "C12":
             for sp in conveyor_store_subjects(tier):
                 sp.kw["order_only"] = 1
